@@ -19,6 +19,8 @@ OPT, RES, CF = 'core::option::Option', 'core::result::Result', 'core::ops::contr
 
 PRESERVE = {'map', 'as_ref', 'as_mut', 'as_deref', 'as_deref_mut', 'cloned', 'copied', 'inspect', 'map_err', 'inspect_err', 'clone', 'to_owned',
             'borrow', 'borrow_mut', 'deref', 'deref_mut', 'into', 'from', 'as_slice', 'as_str', 'context', 'with_context'}
+FUTURE_GLUE = {'core::future::into_future::IntoFuture::into_future', 'core::pin::Pin::new_unchecked', 'core::pin::Pin::new', 'tracing::instrument::Instrument::instrument',
+               'tracing::instrument::Instrument::in_current_span'}
 
 
 class TagInterp(Interp):
@@ -43,6 +45,9 @@ class TagInterp(Interp):
                     pl = op_place(o)
                     if pl is not None and not pl.get('p') and (body.id, pl['l']) in path.tags:
                         path.tags[base + (i,)] = path.tags[(body.id, pl['l'])]
+            elif rv['k'] == 'use' and op_place(rv['op']) is not None and (op_place(rv['op']).get('p') or []) == ['d:Ready', 'f:0'] \
+                    and str(path.tags.get((body.id, op_place(rv['op'])['l']), '')).startswith('poll:'):
+                path.tags[base] = path.tags[(body.id, op_place(rv['op'])['l'])][5:]      # `x.await`: the value of the awaited call
             elif rv['k'] == 'use':
                 src = op_place(rv['op'])
                 if src is not None and len(src.get('p') or []) == 1 and src['p'][0].startswith('f:') and src['p'][0][2:].isdigit():
@@ -291,6 +296,16 @@ class StdSem(Semantics):
                 ps.tags[dk] = 'opt:Some'
                 succ.append(('next', ps))
             return succ
+        if short in FUTURE_GLUE and t0 and t0.startswith('fut:'):
+            clear_dest()
+            if dk is not None:
+                path.tags[dk] = t0           # the future of a call whose outcome the rule decided: carried to its `.await`
+            return [('next', path)]
+        if short == 'core::future::future::Future::poll' and t0 and t0.startswith('fut:'):
+            clear_dest()
+            if dk is not None:
+                path.tags[dk] = 'poll:' + t0[4:]
+            return [('next', path)]
         if short == 'core::ops::try_trait::Try::branch':
             clear_dest()
             if dk is not None and p0 is not None:
@@ -400,6 +415,10 @@ class StdSem(Semantics):
                 for i, v in enumerate(arg_bools):
                     if v is not None:
                         sub.memo[(cb.id, 1 + i)] = v
+                for i in range(len(term['args'])):
+                    pl_ = op_place(term['args'][i])
+                    if self.whole(pl_) and (body.id, pl_['l']) in path.num:
+                        sub.num[(cb.id, 1 + i)] = path.num[(body.id, pl_['l'])]        # counters travel with the call too
                 self.depth += 1
                 try:
                     outs = interp.run(cb, None, path=sub)
